@@ -11,10 +11,54 @@ mod tape {
     use std::cell::RefCell;
     thread_local! {
         pub static TAPE: RefCell<(Vec<Vec<u8>>, usize)> = RefCell::new((Vec::new(), 0));
+        /// search mode: Some(rng state) -> draws are synthesised (biased towards special values
+        /// and towards values drawn before) and recorded on the tape
+        pub static SEARCH: RefCell<Option<u64>> = RefCell::new(None);
+    }
+    fn rng(st: &mut u64) -> u64 {
+        *st ^= *st << 13;
+        *st ^= *st >> 7;
+        *st ^= *st << 17;
+        *st
+    }
+    const F64S: [u64; 12] = [
+        0x0000000000000000, 0x8000000000000000, 0x3ff0000000000000, 0xbff0000000000000, 0x7ff0000000000000,
+        0xfff0000000000000, 0x7ff8000000000000, 0xfff8000000000000, 0x0000000000000001, 0x4000000000000000,
+        0x3fe0000000000000, 0x4008000000000000,
+    ];
+    fn synth(n: usize, st: &mut u64, prev: &[Vec<u8>]) -> Vec<u8> {
+        let r = rng(st);
+        let same: Vec<&Vec<u8>> = prev.iter().filter(|p| p.len() == n).collect();
+        let v: u64 = match r % 8 {
+            0 | 1 => rng(st) % 5,
+            2 if !same.is_empty() => {
+                let p = same[(rng(st) as usize) % same.len()];
+                let mut a = [0u8; 8];
+                a[..n].copy_from_slice(p);
+                u64::from_le_bytes(a)
+            }
+            3 | 4 if n == 8 => F64S[(rng(st) as usize) % F64S.len()],
+            5 => rng(st) % 256,
+            _ => rng(st),
+        };
+        v.to_le_bytes()[..n].to_vec()
     }
     pub fn next(n: usize) -> Vec<u8> {
+        let searching = SEARCH.with(|s| s.borrow().is_some());
         TAPE.with(|t| {
             let mut t = t.borrow_mut();
+            if searching {
+                let v = SEARCH.with(|s| {
+                    let mut s = s.borrow_mut();
+                    let mut st = s.unwrap();
+                    let v = synth(n, &mut st, &t.0);
+                    *s = Some(st);
+                    v
+                });
+                t.0.push(v.clone());
+                t.1 += 1;
+                return v;
+            }
             let i = t.1;
             if i >= t.0.len() {
                 panic!("REPLAY-DIVERGED: tape exhausted at draw {}", i);
@@ -33,10 +77,22 @@ mod tape {
     }
 }
 
+/// Start a native search trial: draws are synthesised from `seed` and recorded.
+#[cfg(not(kani))]
+pub fn start_search(seed: u64) {
+    tape::TAPE.with(|c| *c.borrow_mut() = (Vec::new(), 0));
+    tape::SEARCH.with(|s| *s.borrow_mut() = Some(seed | 1));
+}
+/// The tape recorded so far (native).
+#[cfg(not(kani))]
+pub fn get_tape() -> Vec<Vec<u8>> {
+    tape::TAPE.with(|c| c.borrow().0.clone())
+}
 /// Load a tape for native replay.
 #[cfg(not(kani))]
 pub fn set_tape(t: Vec<Vec<u8>>) {
     tape::TAPE.with(|c| *c.borrow_mut() = (t, 0));
+    tape::SEARCH.with(|s| *s.borrow_mut() = None);
 }
 /// Number of draws consumed / available (native replay).
 #[cfg(not(kani))]
